@@ -143,12 +143,12 @@ def depth(t):
 def run(ctx):
     ctx.rule = ("type terms enumerated by TLC: every term of depth <= 1 over int/string/bool/any/float and buf.Buffer (slices, 2-tuples, "
                 "function types with 1-2 arguments incl. unit argument/result, Box<T>, dict.Dict<K,V>; 3-tuples over 3 bases), depth 2 over "
-                "int/string with one deep component per constructor, and 5 hand-picked depth 3 terms; each printed with minimal and with "
+                "int/string with one deep component per constructor (thorough: every depth <= 1 term in every position, 86 k terms), and 5 hand-picked depth 3 terms; each printed with minimal and with "
                 "redundant parentheses, in each applicable position (parameter annotation, record field, union payload, explicit type "
                 "argument, package_info signature for function types). distinct = distinct (term, printer, position); non-trivial = "
                 "depth >= 2 (counted separately in the evidence: depth >= 1)")
     sd = ctx.spec_dir()
-    slicecheck.write_cfg(ctx, "FoTypeExprCases_run.cfg", "CONSTANTS\n  Depth2 = TRUE\n  OutFile = \"type_cases.ndjson\"\nINIT Init\nNEXT Next\n")
+    slicecheck.write_cfg(ctx, "FoTypeExprCases_run.cfg", "CONSTANTS\n  Depth2 = TRUE\n  Full2 = %s\n  OutFile = \"type_cases.ndjson\"\nINIT Init\nNEXT Next\n" % ("TRUE" if ctx.tier == "thorough" else "FALSE"))
     ctx.tlc("FoTypeExprCases", "FoTypeExprCases_run.cfg", workers=1, timeout=3000, heap_gb=8)
     rows = core.read_ndjson(os.path.join(sd, "type_cases.ndjson"))
     specs = []
